@@ -6,8 +6,8 @@
      e_id     (row, col, end row, end col) of the violations of the enabled rule in the identity run
      e_emb    the same for the run on e_got
      e_texts  (row, location.text) of the violations of the run on e_got *)
-From Regal Require Export Base.Str Model.Layout.
-From Coq Require Import List NArith Bool Arith.
+From Regal Require Export Base.Str Base.Packed Model.Layout.
+From Coq Require Import List NArith Bool Arith Uint63.
 Import ListNotations.
 Local Open Scope N_scope.
 
@@ -80,12 +80,9 @@ Definition lines_agree (p : str * list str) : bool := lines_eqb (regal_lines (fs
 
 (* ---- boundary-shift cases.  There are thousands of them, and Coq reads literals slowly: the text the harness
    linted is sent as (length, digest) and compared with the length and digest of the model's text; the line table
-   for [texts_agree] is then the model's. *)
-Definition hash_p : N := 2305843009213693951.   (* 2^61 - 1 *)
-Definition hash_m : N := 1000003.
-Definition hash_str (s : str) : N := fold_left (fun h c => (h * hash_m + c + 1) mod hash_p) s 0.
-
-Record dig_case := { d_orig : str; d_ops : list op; d_len : N; d_hash : N;
+   for [texts_agree] is then the model's.  The digest is Base/Packed.v [digest] (63-bit multiplicative, primitive
+   integers; this file is not in the closure of Props/C08.v). *)
+Record dig_case := { d_orig : str; d_ops : list op; d_len : N; d_hash : int;
                      d_id : list loc; d_emb : list loc; d_texts : list (N * str) }.
 
 Definition dig_ldoc (c : dig_case) : ldoc := mk_ldoc (regal_lines (d_orig c)) EolLF.
@@ -97,7 +94,7 @@ Definition dig_as_emb (c : dig_case) (got : str) : emb_case :=
 Definition dig_text_agrees (c : dig_case) : bool :=
   let t := dig_model_text c in
   clean_doc (l_lines (dig_ldoc c)) && forallb op_clean (d_ops c)
-  && (N.of_nat (length t) =? d_len c) && (hash_str t =? d_hash c)
+  && (N.of_nat (length t) =? d_len c) && Uint63.eqb (digest t) (d_hash c)
   && str_eqb (text_of (dig_ldoc c)) (d_orig c).
 
 Definition dig_rows_agree (c : dig_case) : bool := rows_agree (dig_as_emb c []).
